@@ -168,6 +168,45 @@ struct TrackedMO : TrackedT<2, false>
     TrackedMO& operator=(TrackedMO&&) noexcept = default;
 };
 
+// Trivially destructible but not trivially copyable/movable: holds a pointer to itself that only its own constructors
+// maintain. A bytewise relocation (memcpy instead of the move constructor) leaves the pointer dangling.
+struct SelfRef
+{
+    int64_t key;
+    const SelfRef* self;
+    explicit SelfRef(int64_t k) noexcept : key(k), self(this) {}
+    SelfRef(const SelfRef& o) noexcept : key(o.intact() ? o.key : -4000), self(this) {}
+    SelfRef(SelfRef&& o) noexcept : key(o.intact() ? o.key : -4000), self(this) {}
+    SelfRef& operator=(const SelfRef& o) noexcept
+    {
+        key = o.intact() ? o.key : -4000;
+        return *this;
+    }
+    SelfRef& operator=(SelfRef&& o) noexcept
+    {
+        key = o.intact() ? o.key : -4000;
+        return *this;
+    }
+    bool intact() const noexcept { return self == this; }
+    friend bool operator==(const SelfRef& a, const SelfRef& b) { return a.key == b.key; }
+    friend bool operator<(const SelfRef& a, const SelfRef& b) { return a.key < b.key; }
+};
+static_assert(std::is_trivially_destructible_v<SelfRef> && !std::is_trivially_move_constructible_v<SelfRef>);
+
+// Move-only but trivially movable (the usual shape of a handle / id wrapper).
+struct Handle
+{
+    int64_t fd;
+    explicit Handle(int64_t k) noexcept : fd(k) {}
+    Handle(Handle&&) = default;
+    Handle& operator=(Handle&&) = default;
+    Handle(const Handle&) = delete;
+    Handle& operator=(const Handle&) = delete;
+    friend bool operator==(const Handle& a, const Handle& b) { return a.fd == b.fd; }
+    friend bool operator<(const Handle& a, const Handle& b) { return a.fd < b.fd; }
+};
+static_assert(std::is_trivially_move_constructible_v<Handle> && !std::is_copy_constructible_v<Handle>);
+
 template <class T>
 inline constexpr bool is_tracked_v = std::is_same_v<T, Tracked> || std::is_same_v<T, TrackedMO>;
 
@@ -199,10 +238,19 @@ enum class E32 : uint32_t
 template <class T, class = void>
 struct Val;
 
+// Every second floating-point zero that is made is a negative zero: +0.0 and -0.0 are equal values (same key) with
+// different object representations, which is exactly what a bytewise comparison must not confuse.
+inline unsigned g_zero_toggle = 0;
+
 template <class T>
 struct Val<T, std::enable_if_t<std::is_arithmetic_v<T> && !std::is_same_v<T, bool>>>
 {
-    static T make(int64_t k) { return static_cast<T>(k); }
+    static T make(int64_t k)
+    {
+        if constexpr (std::is_floating_point_v<T>)
+            if (k == 0 && (++g_zero_toggle & 1)) return -T(0);
+        return static_cast<T>(k);
+    }
     static int64_t key(const T& v) { return static_cast<int64_t>(v); }
 };
 template <>
@@ -271,6 +319,18 @@ struct Val<TrackedMO>
     }
 };
 template <>
+struct Val<SelfRef>
+{
+    static SelfRef make(int64_t k) { return SelfRef(k); }
+    static int64_t key(const SelfRef& v) { return v.intact() ? v.key : -4000; }
+};
+template <>
+struct Val<Handle>
+{
+    static Handle make(int64_t k) { return Handle(k); }
+    static int64_t key(const Handle& v) { return v.fd; }
+};
+template <>
 struct Val<std::string>
 {
     // long enough to defeat SSO for most keys, short for some
@@ -295,7 +355,7 @@ struct Val<std::unique_ptr<int>>
 template <class T>
 int64_t norm_key(int64_t k)
 {
-    if constexpr (is_tracked_v<T> || std::is_same_v<T, std::unique_ptr<int>>)
+    if constexpr (is_tracked_v<T> || std::is_same_v<T, std::unique_ptr<int>> || std::is_same_v<T, SelfRef> || std::is_same_v<T, Handle>)
         return k;
     else
     {
